@@ -22,7 +22,7 @@ type Cfg struct {
 	Custom             bool
 }
 
-var fmtNames = []string{"", "goimports", "noop"}
+var fmtNames = []string{"", "goimports", "noop", "gofmt"}
 var pkgModeNames = []string{"same-implicit", "same-explicit", "other", "test"}
 
 func (c Cfg) String() string {
